@@ -1,0 +1,545 @@
+//! Verification hooks. Only compiled with `--cfg multiqueue2_verif`; with the
+//! flag off none of this exists and the crate is exactly the upstream one.
+//!
+//! The module provides drop-in replacements for the synchronisation primitives
+//! the queue is built on (`AtomicUsize`, `AtomicPtr`, `fence`, `yield_now`,
+//! `std::sync::Mutex`, `parking_lot::{Mutex, Condvar}`).  Every replacement calls
+//! `rt::point` *before* it touches the shared cell, which lets an external
+//! harness serialise logical threads and decide every interleaving of the real
+//! queue code.  The build with the flag on runs one thread of control at a time
+//! (the cells are plain `UnsafeCell`s and memory is sequentially consistent).
+#![allow(dead_code)]
+#![allow(clippy::all)]
+
+use std::cell::UnsafeCell;
+use std::ops::{Deref, DerefMut};
+use std::sync::atomic::Ordering;
+
+/// Run-time interface between the shims and a harness.
+///
+/// Under Kani the four `#[inline(never)]` functions are replaced with
+/// `#[kani::stub]`; in a native build a harness installs plain function
+/// pointers with `install`.  With nothing installed they do nothing.
+pub mod rt {
+    pub const K_LOAD: u8 = 0;
+    pub const K_STORE: u8 = 1;
+    pub const K_RMW: u8 = 2;
+    pub const K_LOCK: u8 = 3;
+    pub const K_TRYLOCK: u8 = 4;
+    pub const K_CVWAIT: u8 = 5;
+    pub const K_NOTIFY: u8 = 6;
+    pub const K_YIELD: u8 = 7;
+    pub const K_SLEEP: u8 = 8;
+    pub const K_PTR_LOAD: u8 = 9;
+    pub const K_PTR_RMW: u8 = 10;
+    pub const K_PTR_STORE: u8 = 11;
+
+    #[cfg(not(kani))]
+    pub struct Hooks {
+        pub point: fn(u8, usize),
+        pub blocked: fn(usize),
+        pub cv_wait: fn(usize) -> bool,
+        pub alloc_event: fn(bool, usize, usize),
+    }
+
+    #[cfg(not(kani))]
+    static mut HOOKS: Option<Hooks> = None;
+
+    /// Native builds only: register the harness run-time.
+    #[cfg(not(kani))]
+    pub fn install(h: Hooks) {
+        unsafe {
+            HOOKS = Some(h);
+        }
+    }
+
+    /// Called before every shared-memory operation of the shims.
+    #[inline(never)]
+    pub fn point(_kind: u8, _addr: usize) {
+        #[cfg(not(kani))]
+        unsafe {
+            if let Some(h) = (*std::ptr::addr_of!(HOOKS)).as_ref() {
+                (h.point)(_kind, _addr)
+            }
+        }
+    }
+
+    /// Called when the running operation would have to block on a shim lock that
+    /// is held by a suspended operation.  A harness prunes such paths.
+    #[inline(never)]
+    pub fn blocked(_addr: usize) {
+        #[cfg(not(kani))]
+        unsafe {
+            if let Some(h) = (*std::ptr::addr_of!(HOOKS)).as_ref() {
+                (h.blocked)(_addr)
+            } else {
+                panic!("multiqueue2_verif: shim lock contended without a scheduler");
+            }
+        }
+    }
+
+    /// Called by the shim `Condvar::wait` after the lock has been released.
+    /// Lets the other logical threads run; the return value is ignored by the
+    /// shim (spurious wake-ups are allowed), it is there for harness bookkeeping.
+    #[inline(never)]
+    pub fn cv_wait(_addr: usize) -> bool {
+        #[cfg(not(kani))]
+        unsafe {
+            if let Some(h) = (*std::ptr::addr_of!(HOOKS)).as_ref() {
+                return (h.cv_wait)(_addr);
+            }
+        }
+        true
+    }
+
+    /// Reports `alloc::allocate` (true) / `alloc::deallocate` (false).
+    #[inline(never)]
+    pub fn alloc_event(_is_alloc: bool, _addr: usize, _bytes: usize) {
+        #[cfg(not(kani))]
+        unsafe {
+            if let Some(h) = (*std::ptr::addr_of!(HOOKS)).as_ref() {
+                (h.alloc_event)(_is_alloc, _addr, _bytes)
+            }
+        }
+    }
+}
+
+// ------------------------------------------------------------------------------------------
+// atomics
+
+pub struct AtomicUsize {
+    v: UnsafeCell<usize>,
+}
+
+unsafe impl Sync for AtomicUsize {}
+unsafe impl Send for AtomicUsize {}
+
+impl Default for AtomicUsize {
+    fn default() -> AtomicUsize {
+        AtomicUsize::new(0)
+    }
+}
+
+impl AtomicUsize {
+    #[inline(always)]
+    pub const fn new(v: usize) -> AtomicUsize {
+        AtomicUsize {
+            v: UnsafeCell::new(v),
+        }
+    }
+
+    #[inline(always)]
+    fn addr(&self) -> usize {
+        self.v.get() as usize
+    }
+
+    /// Harness-only: read the cell without a scheduling point.
+    #[inline(always)]
+    pub fn peek(&self) -> usize {
+        unsafe { *self.v.get() }
+    }
+
+    /// Harness-only: write the cell without a scheduling point.
+    #[inline(always)]
+    pub fn poke(&self, val: usize) {
+        unsafe { *self.v.get() = val }
+    }
+
+    #[inline(always)]
+    pub fn load(&self, _o: Ordering) -> usize {
+        rt::point(rt::K_LOAD, self.addr());
+        unsafe { *self.v.get() }
+    }
+
+    #[inline(always)]
+    pub fn store(&self, val: usize, _o: Ordering) {
+        rt::point(rt::K_STORE, self.addr());
+        unsafe { *self.v.get() = val }
+    }
+
+    #[inline(always)]
+    pub fn fetch_add(&self, val: usize, _o: Ordering) -> usize {
+        rt::point(rt::K_RMW, self.addr());
+        unsafe {
+            let old = *self.v.get();
+            *self.v.get() = old.wrapping_add(val);
+            old
+        }
+    }
+
+    #[inline(always)]
+    pub fn fetch_sub(&self, val: usize, _o: Ordering) -> usize {
+        rt::point(rt::K_RMW, self.addr());
+        unsafe {
+            let old = *self.v.get();
+            *self.v.get() = old.wrapping_sub(val);
+            old
+        }
+    }
+
+    #[inline(always)]
+    pub fn fetch_or(&self, val: usize, _o: Ordering) -> usize {
+        rt::point(rt::K_RMW, self.addr());
+        unsafe {
+            let old = *self.v.get();
+            *self.v.get() = old | val;
+            old
+        }
+    }
+
+    #[inline(always)]
+    pub fn fetch_and(&self, val: usize, _o: Ordering) -> usize {
+        rt::point(rt::K_RMW, self.addr());
+        unsafe {
+            let old = *self.v.get();
+            *self.v.get() = old & val;
+            old
+        }
+    }
+
+    #[inline(always)]
+    pub fn compare_exchange(
+        &self,
+        current: usize,
+        new: usize,
+        _s: Ordering,
+        _f: Ordering,
+    ) -> Result<usize, usize> {
+        rt::point(rt::K_RMW, self.addr());
+        unsafe {
+            let old = *self.v.get();
+            if old == current {
+                *self.v.get() = new;
+                Ok(old)
+            } else {
+                Err(old)
+            }
+        }
+    }
+
+    /// No spurious failures: a spurious failure only re-runs a retry loop and is
+    /// indistinguishable from interference that the scheduler can already create.
+    #[inline(always)]
+    pub fn compare_exchange_weak(
+        &self,
+        current: usize,
+        new: usize,
+        s: Ordering,
+        f: Ordering,
+    ) -> Result<usize, usize> {
+        self.compare_exchange(current, new, s, f)
+    }
+}
+
+pub struct AtomicPtr<T> {
+    p: UnsafeCell<*mut T>,
+}
+
+unsafe impl<T> Sync for AtomicPtr<T> {}
+unsafe impl<T> Send for AtomicPtr<T> {}
+
+impl<T> AtomicPtr<T> {
+    #[inline(always)]
+    pub const fn new(p: *mut T) -> AtomicPtr<T> {
+        AtomicPtr {
+            p: UnsafeCell::new(p),
+        }
+    }
+
+    #[inline(always)]
+    fn addr(&self) -> usize {
+        self.p.get() as usize
+    }
+
+    /// Harness-only: read the cell without a scheduling point.
+    #[inline(always)]
+    pub fn peek(&self) -> *mut T {
+        unsafe { *self.p.get() }
+    }
+
+    #[inline(always)]
+    pub fn load(&self, _o: Ordering) -> *mut T {
+        rt::point(rt::K_PTR_LOAD, self.addr());
+        unsafe { *self.p.get() }
+    }
+
+    #[inline(always)]
+    pub fn store(&self, val: *mut T, _o: Ordering) {
+        rt::point(rt::K_PTR_STORE, self.addr());
+        unsafe { *self.p.get() = val }
+    }
+
+    #[inline(always)]
+    pub fn compare_exchange(
+        &self,
+        current: *mut T,
+        new: *mut T,
+        _s: Ordering,
+        _f: Ordering,
+    ) -> Result<*mut T, *mut T> {
+        rt::point(rt::K_PTR_RMW, self.addr());
+        unsafe {
+            let old = *self.p.get();
+            if old == current {
+                *self.p.get() = new;
+                Ok(old)
+            } else {
+                Err(old)
+            }
+        }
+    }
+}
+
+/// Sequential consistency is built into the shims, so a fence has no effect.
+#[inline(always)]
+pub fn fence(_o: Ordering) {}
+
+#[inline(always)]
+pub fn yield_now() {
+    rt::point(rt::K_YIELD, 0);
+}
+
+/// Stand-in for `std::thread::sleep` (harnesses redirect the absolute path used by
+/// `FutWait::fut_wait` here).
+#[inline(never)]
+pub fn sleep(_d: std::time::Duration) {
+    rt::point(rt::K_SLEEP, 0);
+}
+
+// ------------------------------------------------------------------------------------------
+// locks
+
+struct RawLock {
+    held: UnsafeCell<bool>,
+}
+
+impl RawLock {
+    const fn new() -> RawLock {
+        RawLock {
+            held: UnsafeCell::new(false),
+        }
+    }
+
+    #[inline(always)]
+    fn addr(&self) -> usize {
+        self.held.get() as usize
+    }
+
+    #[inline(always)]
+    fn is_held(&self) -> bool {
+        unsafe { *self.held.get() }
+    }
+
+    #[inline(always)]
+    fn acquire(&self) {
+        rt::point(rt::K_LOCK, self.addr());
+        if self.is_held() {
+            // the holder is a suspended operation that cannot run before we return
+            rt::blocked(self.addr());
+        }
+        unsafe { *self.held.get() = true }
+    }
+
+    #[inline(always)]
+    fn try_acquire(&self) -> bool {
+        rt::point(rt::K_TRYLOCK, self.addr());
+        if self.is_held() {
+            false
+        } else {
+            unsafe { *self.held.get() = true }
+            true
+        }
+    }
+
+    #[inline(always)]
+    fn release(&self) {
+        unsafe { *self.held.get() = false }
+    }
+
+    /// Re-acquire after a condvar wait (no extra scheduling point: `cv_wait` was one).
+    #[inline(always)]
+    fn reacquire(&self) {
+        if self.is_held() {
+            rt::blocked(self.addr());
+        }
+        unsafe { *self.held.get() = true }
+    }
+}
+
+pub struct MutexGuard<'a, T> {
+    lock: &'a RawLock,
+    data: &'a UnsafeCell<T>,
+}
+
+impl<'a, T> Deref for MutexGuard<'a, T> {
+    type Target = T;
+    #[inline(always)]
+    fn deref(&self) -> &T {
+        unsafe { &*self.data.get() }
+    }
+}
+
+impl<'a, T> DerefMut for MutexGuard<'a, T> {
+    #[inline(always)]
+    fn deref_mut(&mut self) -> &mut T {
+        unsafe { &mut *self.data.get() }
+    }
+}
+
+impl<'a, T> Drop for MutexGuard<'a, T> {
+    #[inline(always)]
+    fn drop(&mut self) {
+        self.lock.release();
+    }
+}
+
+/// `std::sync::Mutex` call shape (`lock()`/`try_lock()` return `Result`, never poisoned).
+pub struct Mutex<T> {
+    lock: RawLock,
+    data: UnsafeCell<T>,
+}
+
+unsafe impl<T: Send> Sync for Mutex<T> {}
+unsafe impl<T: Send> Send for Mutex<T> {}
+
+impl<T> Mutex<T> {
+    pub fn new(t: T) -> Mutex<T> {
+        Mutex {
+            lock: RawLock::new(),
+            data: UnsafeCell::new(t),
+        }
+    }
+
+    #[inline(always)]
+    pub fn lock(&self) -> Result<MutexGuard<'_, T>, ()> {
+        self.lock.acquire();
+        Ok(MutexGuard {
+            lock: &self.lock,
+            data: &self.data,
+        })
+    }
+
+    #[inline(always)]
+    pub fn try_lock(&self) -> Result<MutexGuard<'_, T>, ()> {
+        if self.lock.try_acquire() {
+            Ok(MutexGuard {
+                lock: &self.lock,
+                data: &self.data,
+            })
+        } else {
+            Err(())
+        }
+    }
+
+    /// Harness-only: look inside without locking or scheduling.
+    #[inline(always)]
+    pub fn peek(&self) -> &T {
+        unsafe { &*self.data.get() }
+    }
+}
+
+/// `parking_lot` call shape (`lock()` returns the guard, `Condvar::wait(&mut guard)`).
+pub mod parking_lot_shim {
+    use super::{rt, MutexGuard as Guard, RawLock};
+    use std::cell::UnsafeCell;
+
+    pub type MutexGuard<'a, T> = Guard<'a, T>;
+
+    pub struct Mutex<T> {
+        lock: RawLock,
+        data: UnsafeCell<T>,
+    }
+
+    unsafe impl<T: Send> Sync for Mutex<T> {}
+    unsafe impl<T: Send> Send for Mutex<T> {}
+
+    impl<T: Default> Default for Mutex<T> {
+        fn default() -> Mutex<T> {
+            Mutex::new(T::default())
+        }
+    }
+
+    impl<T> Mutex<T> {
+        pub fn new(t: T) -> Mutex<T> {
+            Mutex {
+                lock: RawLock::new(),
+                data: UnsafeCell::new(t),
+            }
+        }
+
+        #[inline(always)]
+        pub fn lock(&self) -> MutexGuard<'_, T> {
+            self.lock.acquire();
+            Guard {
+                lock: &self.lock,
+                data: &self.data,
+            }
+        }
+
+        /// Harness-only: look inside without locking or scheduling.
+        #[inline(always)]
+        pub fn peek(&self) -> &T {
+            unsafe { &*self.data.get() }
+        }
+    }
+
+    pub struct Condvar {
+        /// number of `notify_all` calls so far (harness bookkeeping)
+        notifies: UnsafeCell<usize>,
+    }
+
+    unsafe impl Sync for Condvar {}
+    unsafe impl Send for Condvar {}
+
+    impl Default for Condvar {
+        fn default() -> Condvar {
+            Condvar::new()
+        }
+    }
+
+    impl Condvar {
+        pub fn new() -> Condvar {
+            Condvar {
+                notifies: UnsafeCell::new(0),
+            }
+        }
+
+        #[inline(always)]
+        fn addr(&self) -> usize {
+            self.notifies.get() as usize
+        }
+
+        /// Harness-only.
+        pub fn notify_count(&self) -> usize {
+            unsafe { *self.notifies.get() }
+        }
+
+        /// Atomically releases the lock and waits.  `rt::cv_wait` is where the other
+        /// logical threads run; the harness decides there whether this waiter can be
+        /// woken at all (a waiter nobody notifies is a stuck thread).
+        pub fn wait<T>(&self, guard: &mut MutexGuard<'_, T>) {
+            rt::point(rt::K_CVWAIT, self.addr());
+            guard.lock.release();
+            rt::cv_wait(self.addr());
+            guard.lock.reacquire();
+        }
+
+        pub fn notify_all(&self) -> usize {
+            rt::point(rt::K_NOTIFY, self.addr());
+            unsafe {
+                *self.notifies.get() = (*self.notifies.get()).wrapping_add(1);
+            }
+            0
+        }
+    }
+}
+
+// ------------------------------------------------------------------------------------------
+// re-exports for unit-level harnesses (the modules themselves are private)
+
+pub use crate::countedindex::{get_valid_wrap, is_tagged, past, rm_tag, CountedIndex, Index};
+pub use crate::memory::verif_access as memory_access;
+pub use crate::memory::{MemToken, MemoryManager};
+pub use crate::mpmc::verif_access::mpmc_fut_queue_with;
+pub use crate::read_cursor::{ReadCursor, Reader};
+pub use crate::wait::check as wait_check;
